@@ -126,7 +126,10 @@ class ShuffleContinuumSampler(AbstractContinuumSampler):
         new_segments = []
         while len(segments) > 0:
             segment = segments.pop()
-            if segment.start >= pivot - dist:
+            if segment.end <= pivot - dist or segment.start >= pivot + dist:
+                # the segment doesn't overlap [pivot - dist, pivot + dist] : it stays as it is
+                new_segments.append(segment)
+            elif segment.start >= pivot - dist:
                 if segment.end <= pivot + dist:
                     continue
                 else:
